@@ -372,13 +372,17 @@ def _dominators(n, succ, pred, roots, multi=False):
 
 
 class Facts:
-    def __init__(self, path, normalise=False):
+    def __init__(self, path, normalise=False, use_inliner=True):
         with open(path) as fh:
             text = fh.read()
         if normalise:
             # the Rcvar alias substitution: analyse a `sync` build with the same rule patterns
             text = text.replace("std::sync::Arc", "std::rc::Rc")
         self.j = json.loads(text)
+        # normalisation passes (see inline.py): constant switches folded, unknown helper functions inlined
+        from . import inline
+        self.folded = sum(inline.fold_const_switches(b) for b in self.j["bodies"])
+        self.inlined = inline.inline_helpers(self.j["bodies"], inline.load_known()) if use_inliner else {}
         self.normalised = normalise
         self.path = path
         self.crate = self.j["crate"]
@@ -409,12 +413,24 @@ class Facts:
         r = re.compile(regex)
         return [b for b in self.bodies if b.promoted is None and r.search(b.deff)]
 
-    def fn_bodies(self):
-        return [b for b in self.bodies if b.promoted is None and b.kind in ("fn", "method", "closure")]
+    def fn_bodies(self, with_inlined_helpers=False):
+        """Function-like bodies.  A helper that was inlined into its callers is analysed there, not on its own."""
+        return [b for b in self.bodies if b.promoted is None and b.kind in ("fn", "method", "closure")
+                and (with_inlined_helpers or not self.is_inlined_helper(b))]
+
+    def is_inlined_helper(self, b):
+        if b.j.get("inlined_into"):
+            return True
+        return False
 
     def closures_of(self, deff):
+        """Closures created in `deff` — including those created in helpers that were inlined into it."""
+        roots = {deff}
+        fb = self.fn(deff)
+        if fb is not None:
+            roots |= set(fb.j.get("inlined", []))
         return [
             b
             for b in self.bodies
-            if b.kind == "closure" and b.promoted is None and b.j.get("closure_root") == deff
+            if b.kind == "closure" and b.promoted is None and b.j.get("closure_root") in roots
         ]
